@@ -66,7 +66,7 @@ def run(spec, ctx):
         exts = sorted({e.ext for e in ents if e.ext}) or [".pel"]     # an empty -e value means "no filter"
         for _k in range(5):
             o = rand_sel(rng)
-            variant = rng.choice(["plain", "plain", "-r", "-e", "-e-r", "-x", "-x-r"])
+            variant = "".join(v for v in ("-r", "-e", "-x") if rng.random() < 0.35) or "plain"
             check_dir(ctx, d, ents, o, variant, rng.choice(exts + [".nomatch"]), i, spec)
         d.remove()
 
